@@ -768,7 +768,34 @@ func confAdoptStructure(p *Program, root, nextConf *ssa.Function, confEntry int6
 					if k, ok := constIntOf(pair[1]); ok && k == confEntry && strings.HasSuffix(p.Canon(fr, pair[0]).S, ".EntryType") {
 						if u, ok := pair[0].(*ssa.UnOp); ok {
 							if fa, ok := u.X.(*ssa.FieldAddr); ok && elemOfAppended(fa.X) {
-								return ""
+								// the configuration put in force is the LAST configuration entry among the appended ones:
+								// a scan from the end that stops at its first hit, or a scan from the start that does not stop
+								l, isLoad := fa.X.(*ssa.UnOp)
+								if !isLoad {
+									return ""
+								}
+								ia, isIA := l.X.(*ssa.IndexAddr)
+								if !isIA {
+									return ""
+								}
+								descending := false
+								if ph, ok := stripConv(ia.Index).(*ssa.Phi); ok {
+									for _, e := range ph.Edges {
+										if bo, ok := stripConv(e).(*ssa.BinOp); ok && bo.Op == token.SUB && isConstInt(bo.Y, 1) {
+											descending = true
+										}
+									}
+								}
+								stops := !blockReaches(in.Block(), in.Block())
+								// (a call inside a loop from which the loop head is no longer reachable is followed by a break)
+								switch {
+								case descending && stops, !descending && !stops:
+									return ""
+								case descending:
+									return "the scan runs from the last appended entry to the first and does not stop at its first hit: the EARLIEST configuration entry of the request ends up in force, not the latest"
+								default:
+									return "the scan runs from the first appended entry and stops at its first hit: with two configuration entries in one request the EARLIER one is put in force, while the leader and restore() use the later one"
+								}
 							}
 						}
 					}
